@@ -37,7 +37,9 @@ def run(ctx):
     Fe, O, H = A["element"], A["element2"], A["H"]
     comp = {Fe: q[0], O: q[1], H: q[2]}
     site = fsite(ctx, "nsf.neutron_scattering")
-    cs = fsite(ctx, "nsf._calculate_scattering")
+    from .nworld import kernel, kernel_roles
+    kq, kroles = kernel_roles(ctx, I, ns, comp, rho, lam)
+    cs = fsite(ctx, kq)
     M = q[0] * mass_sym("Fe") + q[1] * mass_sym("O") + q[2] * mass_sym("H")
     nz = [rho * M]
     got = spec.unpack(I.call(ns, [dict(comp)], {"density": rho, "wavelength": lam}))
@@ -128,7 +130,7 @@ def run(ctx):
     for k in spec.OUTPUTS:
         eq(ctx, "R5", f"{k}: array branch, element i = scalar call at wavelength i", gv[k], got[k], site, nonzero=nz)
     for qual, seeds in (("nsf.neutron_scattering", {"wavelength", "energy"}),
-                        ("nsf._calculate_scattering", {"wavelength", "b_c", "sigma_s"}),
+                        (kq, {kroles["wavelength"], kroles["b_c"], kroles["sigma_s"]}),
                         ("nsf.Neutron.scattering_by_wavelength", {"wavelength"}),
                         ("nsf.Neutron.scattering", {"wavelength"})):
         fn = ctx.src.func(qual)
@@ -174,53 +176,12 @@ def run(ctx):
     # R6 signs: on the scattering kernel itself with opaque inputs, so that the structure
     # (abs, max(.,0), squares) is what decides the sign - not the particular composition
     # the kernel is the package function whose result neutron_scattering returns (tail call), found through the call graph
-    fns = ctx.src.func("nsf.neutron_scattering")
-    callees = []
-    for node in ast.walk(fns.node):
-        if isinstance(node, ast.Return) and isinstance(node.value, ast.Call) and isinstance(node.value.func, ast.Name):
-            r = ctx.src.resolve("nsf", node.value.func.id)
-            if r and r[0] == "func" and r[1] not in callees:
-                callees.append(r[1])
-    if len(callees) != 1:
-        raise AnalysisError(f"expected neutron_scattering to return the result of one package function, found {callees}")
-    kern = I.global_name("nsf", callees[0].split(".", 1)[1])
+    callees = [kq]
+    kern = I.global_name(*kq.split(".", 1))
     N = sp.Symbol("N", positive=True)
     B = sp.Symbol("B", complex=True)
     ss = sp.Symbol("sigma_s", nonnegative=True)
-    # the kernel's parameters are identified by what neutron_scattering hands them (not by position or name):
-    # the wavelength itself, the only argument that scales with the density, the complex sum of b_c, the sum of sigma_s
-    kq = callees[0]
-    ksig = [a.arg for a in ctx.src.func(kq).node.args.args]
-    seen_call = {}
-
-    def spy(I_, args, kw):
-        bound = dict(zip(ksig, args)); bound.update(kw)
-        seen_call.update(bound)
-        raise SymRaise("StopIteration", "kernel reached")
-    I.stubs[kq] = spy
-    try:
-        I.call(ns, [dict(comp)], {"density": rho, "wavelength": lam})
-    except SymRaise:
-        pass
-    finally:
-        del I.stubs[kq]
-    roles = {}
-    for pname, val in seen_call.items():
-        try:
-            e = sp.sympify(val)
-        except Exception:
-            continue
-        names = {str(x) for x in e.free_symbols}
-        if e == lam:
-            roles["wavelength"] = pname
-        elif "rho" in names:
-            roles["number_density"] = pname
-        elif any(n.startswith(("br_", "bi_")) for n in names):
-            roles["b_c"] = pname
-        elif any(n.startswith("s_") for n in names):
-            roles["sigma_s"] = pname
-    if set(roles) != {"wavelength", "number_density", "b_c", "sigma_s"}:
-        raise AnalysisError(f"cannot identify the arguments neutron_scattering passes to {kq}: {sorted(roles)} of {ksig}")
+    roles = kroles
     kout = spec.unpack(I.call(kern, [], {roles["number_density"]: N, roles["wavelength"]: lam, roles["b_c"]: B, roles["sigma_s"]: ss}))
     for k in ("sld_im", "sld_inc", "coh_xs", "abs_xs", "inc_xs", "penetration"):
         ctx.check(algebra.nonneg(kout[k]), "R6", f"{k} >= 0 for positive number density and wavelength, any complex b_c",
